@@ -186,6 +186,13 @@ def main() -> int:
                 continue
             mm = re.search(r'"method": "(\w+)"', src)
             mu = re.search(r'"url": f?"([^"]*)"', src)
+            # every status the parser handed over has a decoding branch of its own in the function (a documented status must not fall through to "unexpected")
+            for rs_ in e.get("responses") or []:
+                ev.count("response_branches_looked_for")
+                st_ = str(rs_["status"])
+                if not re.search(r"response\.status_code == " + re.escape(st_) + r"\b", src) and not re.search(r"HTTPStatus\.\w+", src) and not (st_.upper().endswith("XX") or st_ == "default"):
+                    vd.violation("response_status_without_branch", f"{rel}: status {st_} of {e['method'].upper()} {e['path']} was handed to the templates but the function has no branch for it", dict(w, file=rel))
+                    break
             if not mm or not mu or mm.group(1).lower() != e["method"].lower() or skeleton(mu.group(1).split('".format')[0]) != skeleton(e["path"]):
                 vd.violation("endpoint_module_is_another_operation", f"{rel} should be {e['method'].upper()} {e['path']} but sends {mm.group(1) if mm else None} {mu.group(1) if mu else None}", dict(w, file=rel))
         # ---- endpoint files
